@@ -197,15 +197,15 @@ func c14(r *Report) {
 			if ok {
 				ok = anyIn(w.backSlice(cs[0].Call.Args[0], flowOpt{}), func(v ssa.Value) bool {
 					fa, y := v.(*ssa.FieldAddr)
-					return y && fa.X == ssa.Value(f.Params[1]) && fieldObj(fa).Name() == "Header"
+					return y && isParamVal(fa.X, f.Params[1]) && fieldObj(fa).Name() == "Header"
 				})
 			}
 			r.Decide("sibling", "(*M/header."+n+") strips this message's header unconditionally", ok, "removeHopByHopHeaders(msg.Header)", "one side does not strip hop-by-hop headers (or strips a different header set)", f.Pos())
 		}
 		// removal: Del for every table entry
 		okTable := false
-		for _, c := range plainCalls(rm, "(net/http.Header).Del") {
-			if inLoop(c.Block()) && anyIn(w.backSlice(c.Call.Args[1], flowOpt{}), func(v ssa.Value) bool { g, y := v.(*ssa.Global); return y && g.Name() == "hopByHopHeaders" }) {
+		for _, c := range effectiveCalls(rm, "(net/http.Header).Del") {
+			if inLoop(c.Block()) && anyIn(w.backSlice(c.Args[1], flowOpt{}), func(v ssa.Value) bool { g, y := v.(*ssa.Global); return y && g.Name() == "hopByHopHeaders" }) {
 				okTable = true
 			}
 		}
@@ -214,11 +214,11 @@ func c14(r *Report) {
 		okOrder := false
 		var tokDel ssa.Instruction
 		var tabDels []ssa.Instruction
-		for _, c := range plainCalls(rm, "(net/http.Header).Del") {
-			if anyIn(w.backSlice(c.Call.Args[1], flowOpt{Through: map[string]bool{"net/http.CanonicalHeaderKey": true, "strings.TrimSpace": true}}), func(v ssa.Value) bool { return isCallValue(v, "strings.Split") }) {
-				tokDel = c
+		for _, c := range effectiveCalls(rm, "(net/http.Header).Del") {
+			if anyIn(w.backSlice(c.Args[1], flowOpt{Through: map[string]bool{"net/http.CanonicalHeaderKey": true, "strings.TrimSpace": true}}), func(v ssa.Value) bool { return isCallValue(v, "strings.Split") }) {
+				tokDel = c.At
 			} else {
-				tabDels = append(tabDels, c)
+				tabDels = append(tabDels, c.At)
 			}
 		}
 		if tokDel != nil && len(tabDels) > 0 {
@@ -239,9 +239,11 @@ func c14(r *Report) {
 		statelessRule(r, w.Fn("header", "removeHopByHopHeaders"), map[string]bool{"hopByHopHeaders": true}, "what is stripped from one message depends on what earlier messages contained")
 
 		var del *ssa.Call
-		for _, c := range plainCalls(rm, "(net/http.Header).Del") {
-			if anyIn(w.backSlice(c.Call.Args[1], flowOpt{Through: map[string]bool{"net/http.CanonicalHeaderKey": true, "strings.TrimSpace": true}}), func(v ssa.Value) bool { return isCallValue(v, "strings.Split") }) {
-				del = c
+		var delArg ssa.Value
+		for _, c := range effectiveCalls(rm, "(net/http.Header).Del") {
+			if anyIn(w.backSlice(c.Args[1], flowOpt{Through: map[string]bool{"net/http.CanonicalHeaderKey": true, "strings.TrimSpace": true}}), func(v ssa.Value) bool { return isCallValue(v, "strings.Split") }) {
+				del = c.At
+				delArg = c.Args[1]
 			}
 		}
 		if del == nil {
@@ -249,12 +251,12 @@ func c14(r *Report) {
 			return
 		}
 		// sanitiser on the way
-		direct := w.backSlice(del.Call.Args[1], flowOpt{Through: map[string]bool{"net/http.CanonicalHeaderKey": true}})
+		direct := w.backSlice(delArg, flowOpt{Through: map[string]bool{"net/http.CanonicalHeaderKey": true}})
 		trimmed := anyIn(direct, func(v ssa.Value) bool { return isCallValue(v, "strings.TrimSpace") }) && !anyIn(direct, func(v ssa.Value) bool { return isCallValue(v, "strings.Split") })
 		r.Decide("flow", "M/header.removeHopByHopHeaders: each token passes strings.TrimSpace before Header.Del", trimmed, "Split -> TrimSpace -> (CanonicalHeaderKey) -> Del", "a token reaches Header.Del untrimmed: `Connection: a, b` leaves header b in place", del.Pos())
 		// the list separator is the comma alone (optional whitespace is the sanitiser's job)
 		okSep := false
-		for v := range w.backSlice(del.Call.Args[1], flowOpt{Through: map[string]bool{"net/http.CanonicalHeaderKey": true, "strings.TrimSpace": true}}) {
+		for v := range w.backSlice(delArg, flowOpt{Through: map[string]bool{"net/http.CanonicalHeaderKey": true, "strings.TrimSpace": true}}) {
 			if c, y := v.(*ssa.Call); y && calleeName(c) == "strings.Split" {
 				if sep, isC := constString(c.Call.Args[1]); isC && sep == "," {
 					okSep = true
@@ -263,7 +265,7 @@ func c14(r *Report) {
 		}
 		r.Decide("table", "M/header.removeHopByHopHeaders: Connection values are split at \",\"", okSep, "strings.Split(v, \",\")", "the Connection list is split on something other than a bare comma: `a,b` or `a ,b` is taken as one token and the headers it names survive", del.Pos())
 		// all lines: the split input comes from ranging header["Connection"], not from Get
-		full := w.backSlice(del.Call.Args[1], flowOpt{Through: map[string]bool{"net/http.CanonicalHeaderKey": true, "strings.TrimSpace": true, "strings.Split": true}})
+		full := w.backSlice(delArg, flowOpt{Through: map[string]bool{"net/http.CanonicalHeaderKey": true, "strings.TrimSpace": true, "strings.Split": true}})
 		viaGet := anyIn(full, func(v ssa.Value) bool { return isCallValue(v, "(net/http.Header).Get") })
 		viaMap := anyIn(full, func(v ssa.Value) bool {
 			lk, y := v.(*ssa.Lookup)
@@ -357,7 +359,7 @@ func c14(r *Report) {
 			for _, c := range plainCalls(vreq, "(*M.Context).SkipRoundTrip") {
 				if !anyIn(w.backSlice(c.Call.Args[0], flowOpt{}), func(v ssa.Value) bool {
 					cc, y := v.(*ssa.Call)
-					return y && calleeName(cc) == "M.NewContext" && cc.Call.Args[0] == ssa.Value(vreq.Params[1])
+					return y && calleeName(cc) == "M.NewContext" && isParamVal(cc.Call.Args[0], vreq.Params[1])
 				}) {
 					ok = false
 				}
@@ -410,6 +412,40 @@ func c14(r *Report) {
 			}
 			r.Decide("path", "(*M/header.ViaModifier).ModifyRequest: every non-empty Via value is tested for a loop", extra == "", "only the emptiness test guards hasLoop", "another condition ("+extra+") decides whether the loop test runs at all: a Via chain it filters out is forwarded although it names this proxy", loops[0].Pos())
 		}
+		// the default boundary is one token: hex digits without padding blanks (the received-by
+		// field is cut at white space, so a blank inside the boundary never matches again)
+		if rb := w.Fn("header", "randomBoundary"); rb != nil && rb.Blocks != nil {
+			r.Touch(rb)
+			okFmt := false
+			for _, c := range plainCalls(rb, "fmt.Sprintf") {
+				if f, isK := constString(c.Call.Args[0]); isK {
+					okFmt = true
+					for i := 0; i+1 < len(f); i++ {
+						if f[i] == '%' {
+							j := i + 1
+							for j < len(f) && (f[j] == '0' || (f[j] >= '1' && f[j] <= '9')) {
+								j++
+							}
+							// a width without the zero flag pads with blanks
+							if j > i+1 && f[i+1] != '0' {
+								okFmt = false
+							}
+							if j < len(f) && f[j] == ' ' {
+								okFmt = false
+							}
+							i = j
+						} else if f[i] == ' ' {
+							okFmt = false
+						}
+					}
+				}
+			}
+			for _, c := range calls(rb, "encoding/hex.EncodeToString") {
+				_ = c
+				okFmt = true
+			}
+			r.Decide("table", "M/header.randomBoundary yields a single token", okFmt, "hex digits, no width that pads with blanks", "the default boundary can contain blanks (a width without the zero flag): the proxy's own Via entry is then split in the wrong place and a loop is never recognised", rb.Pos())
+		}
 		scanLoopsExhaustiveRule(r, w.Fn("header", "ViaModifier.hasLoop"), "a `break` (or a jump past the loop) ends the scan of the Via chain at some entry: a loop hidden behind a malformed or foreign entry is not detected and the request goes round again")
 		r.Decide("flow", "(*M/header.ViaModifier).ModifyRequest: the loop test examines the request's Via header", okArg, "hasLoop(<Via value>)", "the loop test looks at something else than the Via header", loops[0].Pos())
 		// the loop test compares the whole received-by token, built from the same two parts the
@@ -440,7 +476,7 @@ func c14(r *Report) {
 			recvFields := func(f *ssa.Function, v ssa.Value) map[string]bool {
 				out := map[string]bool{}
 				for x := range w.backSlice(v, flowOpt{BinOps: true, Through: map[string]bool{"fmt.Sprintf": true, "strings.Join": true}}) {
-					if fa, y := x.(*ssa.FieldAddr); y && len(f.Params) > 0 && fa.X == ssa.Value(f.Params[0]) {
+					if fa, y := x.(*ssa.FieldAddr); y && len(f.Params) > 0 && isParamVal(fa.X, f.Params[0]) {
 						out[fieldObj(fa).Name()] = true
 					}
 				}
@@ -589,7 +625,7 @@ func c14(r *Report) {
 			isOwn := func(v ssa.Value) bool {
 				return anyIn(w.backSlice(v, flowOpt{BinOps: true, Through: map[string]bool{"fmt.Sprintf": true, "strconv.Itoa": true}}), func(x ssa.Value) bool {
 					fa, y := x.(*ssa.FieldAddr)
-					return y && len(vreq.Params) > 0 && fa.X == ssa.Value(vreq.Params[0])
+					return y && len(vreq.Params) > 0 && isParamVal(fa.X, vreq.Params[0])
 				})
 			}
 			for _, leaf := range resolveAll(h.Call.Common().Args[2]) {
@@ -668,6 +704,22 @@ func c14(r *Report) {
 									}
 								}
 							}
+						}
+					}
+				}
+			}
+			if s.key == "X-Forwarded-For" {
+				// ... on every path: each value the header can be set to ends with the client
+				// address (an entry that looks like the client's is still another hop's entry)
+				for _, h := range headerCalls(fm) {
+					if h.Method != "Set" || h.Key != s.key {
+						continue
+					}
+					for _, l := range resolveAll(h.Call.Common().Args[2]) {
+						ops := concatOperands(l)
+						last := ops[len(ops)-1]
+						if !anyIn(w.backSlice(last, flowOpt{BinOps: true, Through: map[string]bool{"net.SplitHostPort": true}}), s.pred) {
+							ok = false
 						}
 					}
 				}
